@@ -50,6 +50,8 @@ def main():
         c = m["caught_by"]
         if k == "C11-1":
             st = "made harmless by a repair"
+        elif c.startswith("MISSED by the version before round 3"):
+            st = "missed in round 3, caught after strengthening"
         elif c.startswith("MISSED by the version before round 2"):
             st = "missed in round 2, caught after strengthening"
         elif c.startswith("MISSED"):
@@ -58,7 +60,7 @@ def main():
             st = "correspondence only"
         else:
             st = "caught"
-        rows.append((k, m["needs"], st, re.sub(r"^MISSED by the (?:first version|version before round 2)(?: \((.*?)\))?; ", lambda m: "missed at first" + (f" ({m.group(1)})" if m.group(1) else "") + "; ", c)))
+        rows.append((k, m["needs"], st, re.sub(r"^MISSED by the (?:first version|version before round [23])(?: \((.*?)\))?; ", lambda m: "missed at first" + (f" ({m.group(1)})" if m.group(1) else "") + "; ", c)))
     out.append("### 9.5 Seeded changes (independent sub-agents, property text only) and which checks catch them\n")
     out.append("Each directory `seeded/<id>-<n>/` holds `patch.diff`, `demo.py` (exit 0 on the clean tree, non-zero on the patched tree - confirmed "
                "by `harness/run_seeded.sh`, which applies the patch to a scratch worktree of `/repo`'s HEAD, runs the demo on both trees and runs "
@@ -77,7 +79,14 @@ def main():
                "previous commits in C06, non-float64 real data in C02, reused declaration arrays in C03, NaN losses and crash-and-resume "
                "(Exception and KeyboardInterrupt flavours) in C05/C11, a parameter-mutating model and a >500-point history in C01, "
                "second constructions on the caller's own arrays in C15, integer-typed and reused grid objects in C17, the caller's own array "
-               "(kept and passed twice) in C20, one-sided float32 overflow in C16. The lesson repeated across them: generators must include the boundary of "
+               "(kept and passed twice) in C20, one-sided float32 overflow in C16; and after round 3 "
+               "(changes asked to be interactions of two features, almost-equivalent optimisations, bookkeeping at a slightly wrong moment): RL "
+               "twins with a reward-driven agent, small-unit losses and several constructor seeds in C01; real samplers on exhausted "
+               "spaces with a model-call log in C02; more than ten parameters and sim_length in C04; early-stop resumes and used folders in "
+               "C05; integer data, far-from-origin likelihood and reuse on another length in C07; near-coincident ensembles in C08; the "
+               "exchange observed through Calibrator.calibrate in C10; faults raised by the built-in samplers themselves in C11; a reassigned "
+               "pass budget in C12; exact powers as the last index and rejected requests in C13; float32 arrays and spaces beyond 2^63 points in "
+               "C15; mixed integer / fractional grids in C17; concurrent re-evaluation in C20. The lesson repeated across them: generators must include the boundary of "
                "*representation* (signed zero, exact zero, dtype, array rank, buffer size) and *object reuse* (the same loss / sampler / folder used "
                "twice), not only the boundary of the mathematical domain.\n")
 
